@@ -1,5 +1,5 @@
 (* Props/C04.v — property C04: every supplied scenario runs, nothing else runs, the run terminates. *)
-From CV Require Import Model.Base Model.Events Model.Sched Proofs.BaseP Proofs.SchedP Proofs.SchedP2 Proofs.SchedP3 Proofs.SchedP4.
+From CV Require Import Model.Base Model.Events Model.Sched Proofs.BaseP Proofs.SchedP Proofs.SchedP2 Proofs.SchedP3 Proofs.SchedP4 Proofs.SchedP8.
 
 (* nothing runs that was not dispatched: a scenario event always belongs to an entry of `running` *)
 Theorem C04_only_dispatched_run :
@@ -27,3 +27,10 @@ Theorem C04_nothing_else_starts :
   forall c ls s tr, exec c ls = Some (s, tr) -> forall x, In x (started_ids tr) -> In x (inserted_ids ls).
 Proof. exact only_supplied_started. Qed.
 Print Assumptions C04_nothing_else_starts.
+
+(* bounded work: the number of attempts a run starts is bounded by the input alone (one per supplied scenario plus
+   its retries), whatever the schedule — the loop cannot keep dispatching for ever *)
+Theorem C04_attempts_bounded_by_input :
+  forall c ls s tr, exec c ls = Some (s, tr) -> starts (fun _ => true) tr <= budget (fun _ => true) ls.
+Proof. exact attempts_total_bounded. Qed.
+Print Assumptions C04_attempts_bounded_by_input.
